@@ -486,6 +486,16 @@ def _c17_part(rep, tier):
     return cmdtier.run_c17(rep, tier)
 
 
+def _c17_tags(rep, tier):
+    from . import cmdtier
+    return cmdtier.run_tags(rep, tier, "C17")
+
+
+def _c18_tags(rep, tier):
+    from . import cmdtier
+    return cmdtier.run_tags(rep, tier, "C18")
+
+
 def _c18_part(rep, tier):
     from . import cmdtier
     from .common import load_findings
@@ -505,13 +515,13 @@ register("C17",
          "commands gen / default form / -header_file (ok, missing) / -output_file_prefix / -tags / diff / check / show; exit status and "
          "the hash of every file of the tree before and after compared with WireV.genExec/diffExec and with the property statement; "
          "non-trivial = mixed package kinds or a pre-existing output file",
-         [_c17_part])
+         [_c17_part, _c17_tags])
 register("C18",
          "random histories (3-12 ops quick, 3-40 thorough) over {switch variant, gen, diff, check, delete output, clobber output with "
          "stale/garbage/non-compiling bytes} on six source variants, executed on the real binary in one directory; exits and final bytes "
          "compared with WireV.runH where the analysis of each variant is taken from a fresh checkout; after every successful gen: output = "
          "fresh-checkout output, second gen is a no-op, diff = 0; non-trivial = history of >= 4 steps",
-         [_c18_part])
+         [_c18_part, _c18_tags])
 
 
 def _c20_part(rep, tier):
